@@ -3,7 +3,7 @@
    NOT satisfy the whole statement: the gap, start and speed clauses are refuted below (recorded
    findings F3a/F3c); what does hold for all histories is proved at full strength. *)
 From Coq Require Import Lia.
-From SV Require Import Model.Session Proofs.SessionProofs Spec.QuietSpec Proofs.QuietProofs.
+From SV Require Import Model.Session Proofs.SessionProofs Spec.QuietSpec Proofs.QuietProofs Spec.SessionSpec Proofs.SessionSpecSound.
 
 (* with distinct event ids, no event is reported in two session results (nor twice in one) *)
 Theorem C10_each_event_at_most_once : forall c h i,
@@ -68,3 +68,31 @@ Theorem C10_tick_redelivers_skipped_watermark : forall c base h,
   Forall (nnow_is base) h -> quiet_violated_s (nooo c) base (snd (nrun c nst0 h)) = false.
 Proof. exact session_quiet. Qed.
 Print Assumptions C10_tick_redelivers_skipped_watermark.
+
+(* the executable checker the harness applies to the real window's trace (Spec/SessionSpec.v, chk_C10 = the list of ALL
+   violated clauses), run on the traces of the model: for every history of atomic steps with distinct row ids, one wall
+   clock, a positive timeout and a non-negative out-of-order tolerance (any timestamps, any allowed lateness), the only
+   clauses ever reported are the gap and the start clause, i.e. the recorded findings F3a / F3c.  NWrongKey, NUnknownRow,
+   NTwice, NEndNotLatestPlusTimeout, NSplitWithinTimeout, NEarlyDelivery, NWatermarkOrigin, NOnTimeLost,
+   NLateUpdateShape and NFarFuture are never violated by the model. *)
+Theorem C10_model_violates_only_known_clauses : forall c base,
+  0 < ntimeout c -> 0 <= nooo c ->
+  forall h, (forall id ts key now, In (NAdd id ts key now) h -> now = base) -> NoDup (flat_map op_ids h) ->
+  forall cl, In cl (chk_C10 c base (snd (nrun c nst0 h))) -> cl = NGapNotSplit \/ cl = NStartNotEarliest.
+Proof. exact model_only_known_clauses_clock. Qed.
+Print Assumptions C10_model_violates_only_known_clauses.
+
+(* ... and both of them are reachable (F3a: 10.0, 10.1, 15.0 with timeout 1.0 reported as one session;
+   F3c: window_start is the first-arrived timestamp 10.4, not the earliest 10.1) *)
+Theorem C10_gap_clause_reachable :
+  chk_C10 ncfg1 0 (snd (nrun ncfg1 nst0 ([NAdd 1 10000 1 0; NAdd 2 10100 1 0; NAdd 3 15000 1 0] ++ drainN ++ [NAdd 4 30000 99 0] ++ drainN)))
+  = [NGapNotSplit].
+Proof. exact gap_clause_reachable. Qed.
+Print Assumptions C10_gap_clause_reachable.
+
+Theorem C10_start_clause_reachable :
+  chk_C10 {| ntimeout := 1000; nooo := 500; nlateness := 0 |} 0
+    (snd (nrun {| ntimeout := 1000; nooo := 500; nlateness := 0 |} nst0 ([NAdd 1 10400 1 0; NAdd 2 10100 1 0; NAdd 3 30000 99 0] ++ drainN)))
+  = [NStartNotEarliest].
+Proof. exact start_clause_reachable. Qed.
+Print Assumptions C10_start_clause_reachable.
